@@ -29,6 +29,7 @@ ASSUMPTIONS = [
     "== on incompatible units, mixed Array/Vector members or unequal shapes must not be True; raising is accepted",
     "== across different units is generated only where the conversion factor rhs->lhs is an exact integer (rounding is not the subject)",
     "an object stored under several keys carries the key of its most recent successful insertion (after a copy: any key of the copy)",
+    "a member holding a NaN is not element-wise equal to anything, itself included: groups sharing such a member object must not compare equal",
 ]
 REAL_STUB = {"real": ["osyris.Datagroup", "osyris.Dataset", "osyris.Array", "osyris.Vector", "units"], "stub": []}
 KEYS = ["a", "b", "c", "d"]
@@ -54,6 +55,9 @@ def gen_value(rng, n=None):
     nc = rng.choice([1, 2, 3]) if kind == "vec" else (rng.choice([2, 3]) if kind == "arr2" else 1)
     dtype = rng.choice(["f8", "f8", "i8"]) if kind == "arr" else "f8"
     vals = [[float(rng.randrange(-8, 9)) * (1.0 if dtype == "i8" else rng.choice([1.0, 0.5, 0.25])) for _ in range(n)] for _ in range(nc)]
+    if dtype == "f8" and rng.random() < 0.08:
+        # an undefined entry (NaN): such a member is not element-wise equal to anything, itself included
+        vals[rng.randrange(nc)][rng.randrange(n)] = float("nan")
     return {"kind": kind, "unit": unit, "vals": vals, "dtype": dtype}
 
 
@@ -85,7 +89,7 @@ def gen_ops(rng, nops):
             ops.append({"op": "copy", "h": h, "g": g, "to": rng.randrange(NG), "how": rng.choice(["copy", "copy.copy"])})
         elif r < 0.80:
             mode = rng.choice(["same", "equal-copy", "reordered", "reordered", "one-different", "all-different", "units-exact", "units-different", "incompatible", "extra-key", "asis",
-                               "dtype-other", "kind-other", "ncomp-other"])
+                               "dtype-other", "kind-other", "ncomp-other", "shallow-copy", "same"])
             ops.append({"op": "eq", "h": h, "g": g, "g2": rng.randrange(NG), "mode": mode, "pick": rng.randrange(8)})
         elif r < 0.86:
             ops.append({"op": "ds_set", "h": h, "d": rng.randrange(ND), "name": rng.choice(["mesh", "part", "x"]),
@@ -433,6 +437,11 @@ def execute(case, stats):
                     mB = {kk: (None, s) for kk, s in specs.items()}
                     if mode == "same":
                         B, mB = A, mA
+                    elif mode == "shallow-copy":
+                        # another group holding the very same member objects
+                        B, mB = A.copy(), mA
+                        for kk_, (o_, v_) in mA.items():
+                            allowed.setdefault(id(o_), set()).add(kk_)  # (a copy may re-insert the members under their keys)
                     else:
                         B = osy.Datagroup()
                         for kk, s in specs.items():
@@ -452,6 +461,8 @@ def execute(case, stats):
                     stats.inc("ambig.equality_with_inexact_conversion")
                     continue
                 n_eq += 1 if B is not A else 0
+                if any(np.isnan(np.array(v["vals"], dtype=float)).any() for (o, v) in mA.values()) and mB is mA:
+                    stats.inc("probe.eq_of_groups_sharing_a_member_that_holds_nan")
                 try:
                     got = A == B
                     raised = None
@@ -600,7 +611,7 @@ def execute(case, stats):
                     break
                 want = [np.array(c, dtype=float) for c in v["vals"]]
                 got = raw(o)
-                if len(want) != len(got) or any(not np.array_equal(a, b) for a, b in zip(want, got)):
+                if len(want) != len(got) or any(not np.array_equal(a, b, equal_nan=True) for a, b in zip(want, got)):
                     V(step, op, "values", {"group": g, "key": kk})
                     break
         for d in range(ND):
